@@ -16,6 +16,12 @@ CHECKS = {
    text="A flow generator sends tainted strings and captured (safe) values through every string/list filter and operator in every argument position, through macros, call blocks, set/filter blocks, loops, includes, imports and inherited blocks of *.html/*.xml templates; free-mode programs rewritten into the fragment are mixed in. The output must contain none of < > \" '. For programs that only print/pass/store/loop over/join/re-capture captured values, unescaping the html rendering must give exactly the txt rendering (escaped exactly once). Both escaper implementations (speedups off/on).",
    note="Raw & is not asserted (transforming an already escaped capture legitimately yields &LT; or cut-off entities). Mixed-extension includes are outside the domain.",
    design="3/C02"),
+ "C03": dict(
+   technique="property-based testing against a reference model: a scope-tracking generator (driven by a proptest byte tape, so programs shrink) emits well-typed programs of the core fragment; an independent reference interpreter of the documented semantics (harness/src/refint.rs) is the oracle for output and error-or-not",
+   level="exploration",
+   text="Programs over expressions, if/elif/else, for/else with loop filters, unpacking and every loop.* attribute printed in every loop, set and set-blocks, with, macros with defaults/keyword arguments/caller(), call blocks with parameters, filter blocks and optional break/continue are rendered against 4 contexts of ints, strings, lists and maps. After every scoped construct the generator inserts probes printing `name is defined` and the value for names assigned inside and before it, so scoping is observed, not assumed. A pinned set of hand-written programs (minimal forms of the defects found, documentation shapes) runs first.",
+   note="The reference interpreter is the assumption: it was written from the documentation, not from the engine, and where the documentation is silent the generator does not go (listed in the evidence assumptions). Programs the interpreter flags as outside its fragment are skipped and counted (label outside_fragment).",
+   design="3/C03"),
  "C04": dict(
    technique="property-based testing: metamorphic relation between an expression over literals and every variant with a subset of its literal leaves hoisted into context variables",
    level="exploration",
